@@ -143,6 +143,9 @@ def run(ctx, rep):
     check_frame_arith(ctx, rep, 'R12.4')
     rep.rule('R12.7', 'deep recursion ends at a limit of the machine, not of the host: the number of call frames is bounded by a test with an error edge')
     check_frame_depth(ctx, rep, 'R12.7')
+    rep.rule('R12.8', 'a name in the caller means the caller\'s variable: the lookup answers from the scope structure as it is now - state it reads besides (a cache of answers) is brought up to date when a function context is entered or left')
+    from rules import c09 as _c09
+    _c09.check_memo(ctx, rep, 'R12.8')
 
 
 def _norm(v, env, roles, depth=0):
